@@ -24,6 +24,8 @@ mod routing;
 mod scheduler;
 pub(crate) mod shared_subs;
 mod waiters;
+#[cfg(feature = "verif-hooks")]
+pub(crate) use routing::verif;
 
 pub use alertlog::Alert;
 pub use connection::Connection;
